@@ -19,7 +19,23 @@
 * C10.defaults.info: cross / als / als_func called with the default `info` argument after an earlier default-info
   call with different stopping parameters return exactly what a call with a fresh info={} returns, and the default
   dictionary then holds exactly the fresh dictionary's entries (nothing carried over).
+* C10.defaults.info.allow_swap: the same after an als(allow_swap=True) call with the default info.  FAILS on the
+  clean tree (possible genuine defect, reported): the key 'rearrange' written by the allow_swap call stays in the
+  module-level default dictionary and shows up in every later default-info call (`info.update` resets only the
+  five standard keys).
 * C10.defaults.cache_to_data: cache_to_data() with its default never changes, whatever was converted before.
+
+Parameter coverage (audit): the seeded table has, besides one default-ish call per routine, every parameter that
+changes what or how much is drawn: sample m = 1 / float m / unsert = 0 / d = 2; sample_lhs with m < every mode,
+m a multiple of every mode (no remainder draw), m = 1 with a mode of size 1; sample_rand m = 1, d = 4;
+sample_tt r = 1 / d = 2 / d = 4; sample_square unique / non-unique / m_fact = 1 with forced restarts (the function
+calls itself again with the same seed object) / float_cf; anova order 2 with d = 4, noise = 0; ANOVA.cores called
+repeatedly incl. rel_noise, ANOVA.sample(with_square, xi); core_qr_rand m = 0; cross_act with three inputs, d = 4,
+nswp = 0; ndarray n / r arguments; integer seeds 0, 1, 42 and 2^40 + 12345 (beyond 32 bits).  The history made
+between the compared calls also contains seed=None calls of sample_square (shuffle), anova, core_qr_rand, sample.
+The deterministic table inherits all flag variants of C09 (log=True, every stop criterion, allow_swap, update_sol,
+Generator seeds freshly built from equal integers, read-only layout, d = 4).  defaults.info: 8 parameter sets per
+function (validation stop, cache + m_cache_scale, callbacks returning True, weights, update_sol, fh, lamb=None).
 
 rand_custom draws from the caller's f (its default is the global np.random.randn by documentation) and takes no
 seed: it is only part of the deterministic table with a seeded f.
@@ -36,9 +52,10 @@ from rtc.suites import C09 as tab
 
 
 BUDGET = (100, 600)
-BOUNDS = ('16 seeded call patterns x 3 integer seeds x 2 pairs of global states (quick) / 10 seeds x 4 pairs '
-          '(thorough); deterministic table: every C09 pattern and flag variant once (quick) / x 3 layouts x 4 shape '
-          'variants (thorough); default-dict histories: 3 functions x 4 orders of stopping parameters')
+BOUNDS = ('40 seeded call patterns (18 base ones x 4 integer seeds incl. 2^40+12345 x 2 pairs of global states, 22 '
+          'parameter variants x 2 seeds; quick) / 11 seeds x 4 pairs (thorough); deterministic table: every C09 pattern '
+          'and flag variant (about 370) once (quick) / x 4 layouts x 5 shape variants (thorough); default-dict '
+          'histories: 3 functions x 8 parameter sets pairwise (subset in quick) + als allow_swap history')
 
 N3 = [3, 4, 2]
 
@@ -86,7 +103,48 @@ SEEDED = {
     'cross_act_dr0': (lambda sd, s: teneva.cross_act(_f_act, [gen.tt(N3, 2, s, 'gauss'),
                                                                 gen.tt(N3, 2, s + 1, 'gauss')],
                                                      gen.tt(N3, 2, s + 2, 'gauss'), 1e-6, 1, dr=0, seed=sd), False),
+    # ---- parameter-coverage additions: every parameter that changes what / how much is drawn
+    'rand_d2_r1': (lambda sd, s: teneva.rand([5, 2], 1, seed=sd), True),
+    'rand_stab_array': (lambda sd, s: teneva.rand_stab(np.array(N4), np.array([1, 2, 3, 2, 1]), seed=sd), True),
+    'sample_m1': (lambda sd, s: teneva.sample(_ypos(s), seed=sd), True),
+    'sample_d2_unsert0': (lambda sd, s: teneva.sample([G[:, :, :1] if k else G for k, G in enumerate(_ypos(s)[:2])],
+                                                     5.0, sd, 0.0), True),
+    'sample_lhs_m_small': (lambda sd, s: teneva.sample_lhs([3, 4, 5], 2, seed=sd), True),       # m < every n_k
+    'sample_lhs_m_multiple': (lambda sd, s: teneva.sample_lhs(np.array(N3), 12, seed=sd), True),  # no remainder draw
+    'sample_lhs_m1': (lambda sd, s: teneva.sample_lhs([1, 3], 1.0, seed=sd), True),
+    'sample_rand_d4': (lambda sd, s: teneva.sample_rand(np.array(N4), 1, seed=sd), True),
+    'sample_tt_d4_r1': (lambda sd, s: teneva.sample_tt(N4, 1, seed=sd), True),
+    'sample_tt_d2': (lambda sd, s: teneva.sample_tt([3, 4], 3, seed=sd), True),
+    'sample_func_d2': (lambda sd, s: teneva.sample_func(_dens(s)[:1] + _dens(s + 1)[2:], seed=sd), True),
+    'sample_square_unique': (lambda sd, s: teneva.sample_square(gen.tt(N4, 2, s, 'gauss'), 5, True, sd), True),
+    'sample_square_nonunique': (lambda sd, s: teneva.sample_square(gen.tt(N3, 2, s, 'gauss'), 5, False, sd), True),
+    # m_fact = 1 and as many distinct rows as the tensor has entries with sizeable mass: the function restarts itself
+    'sample_square_restart': (lambda sd, s: teneva.sample_square(gen.tt([2, 2, 2], 2, s, 'ones'), 6, True, sd, 1), True),
+    'sample_square_float_cf': (lambda sd, s: teneva.sample_square(gen.tt(N3, 2, s, 'gauss'), 3, False, sd,
+                                                                  float_cf=2), True),
+    'anova_o2_d4': (lambda sd, s: teneva.anova(*_data4(s), r=4, order=2, noise=1e-6, seed=sd), True),
+    'anova_noise0': (lambda sd, s: teneva.anova(*_data(s)[:2], r=3, order=1, noise=0.0, seed=sd), True),
+    'ANOVA_cores_twice': (lambda sd, s: (lambda A: [A.cores(3, 1e-2), A.cores(3, rel_noise=1e-3), A.cores_1(2)])(
+        teneva.ANOVA(*_data(s)[:2], order=2, seed=sd)), True),
+    'ANOVA_sample_square': (lambda sd, s: (lambda A: [A.sample(with_square=True), A.sample(), A.sample(1)])(
+        teneva.ANOVA(*_data(s)[:2], order=1, seed=sd)), True),
+    'core_qr_rand_m0': (lambda sd, s: teneva.core_qr_rand(gen.tt(N3, 2, s, 'gauss')[1], 0, True, seed=sd), None),
+    'cross_act_three_d4': (lambda sd, s: teneva.cross_act(lambda X: X[:, 0] * X[:, 1] - X[:, 2],
+                                                          [gen.tt(N4, 2, s + k, 'gauss') for k in range(3)],
+                                                          gen.tt(N4, 2, s + 3, 'gauss'), 1e-4, 0, 3, 1, 0, sd), True),
 }
+
+N4 = [2, 3, 2, 3]
+BIG_SEED = (1 << 40) + 12345       # beyond 32 bits: legal for default_rng, not for the legacy global generator
+
+
+def _data4(s):
+    Y = gen.tt(N4, 2, s, 'gauss')
+    I = np.vstack([gen.all_indices(N4), gen.rng('C10d4', s).integers(0, np.array(N4), size=(10, 4))])
+    return I, np.array([tab._chain(Y, r) for r in I])
+
+
+N_OLD = 18      # the first entries of SEEDED: the original table (3 seeds x 2 pairs in quick), the rest 2 seeds x 1 pair
 
 
 def _quiet(f, *a):
@@ -112,6 +170,11 @@ def _perturb(k):
                  m=20 + k % 30 if k % 2 else None, nswp=None if k % 2 else 1)
     teneva.als(I, y, gen.tt(N3, 2, k, 'gauss'), nswp=1 + k % 2)
     teneva.truncate(Y, 1e-3)
+    if k % 3 == 0:      # seed=None calls of the other seeded routines (incl. the shuffle of sample_square)
+        teneva.sample_square(Y, 2)
+        teneva.anova(I, y)
+        teneva.core_qr_rand(Y[1], 1)
+        teneva.sample(_ypos(k % 5), 2)
     np.random.randn(3)
 
 
@@ -169,7 +232,7 @@ def seeded_generator(fn, seed, ga, gb):
         return FAIL('two generators with equal state give different results (draws from somewhere else)')
     if g1.bit_generator.state != g2.bit_generator.state:
         return FAIL('the two generators end in different states')
-    if (g1.bit_generator.state != s0) != draws:
+    if draws is not None and (g1.bit_generator.state != s0) != draws:
         return FAIL(f'passed generator advanced: {g1.bit_generator.state != s0}, function draws: {draws}')
     return PASS
 
@@ -267,14 +330,18 @@ def _info_calls(fn, seed):
 
         def call(**kw):
             return teneva.cross(lambda J: np.array([tab._chain(Yref, r) for r in J]), Y0, **kw)
-        return call, [dict(m=25), dict(nswp=2), dict(e=1e-10, nswp=5, cache={}), dict(nswp=0), dict(m=400, e=1e-12)]
+        return call, [dict(m=25), dict(nswp=2), dict(e=1e-10, nswp=5, cache={}), dict(nswp=0), dict(m=400, e=1e-12),
+                      dict(nswp=3, I_vld=I[:6], y_vld=y[:6], e_vld=1e30), dict(nswp=4, cache={}, m_cache_scale=0),
+                      dict(nswp=2, cb=lambda Y, info, opts: True, dr_max=0, dr_min=0)]
     if fn == 'als':
         Y0 = gen.tt(N3, 2, seed + 1, 'gauss')
 
         def call(**kw):
             return teneva.als(I, y, Y0, **kw)
         return call, [dict(nswp=1), dict(nswp=3, e=None), dict(nswp=2, r=3), dict(nswp=4, e=1e-2),
-                      dict(nswp=2, I_vld=I[:5], y_vld=y[:5], e_vld=1e-1)]
+                      dict(nswp=2, I_vld=I[:5], y_vld=y[:5], e_vld=1e-1),
+                      dict(nswp=3, cb=lambda Y, info, opts: True), dict(nswp=2, w=np.linspace(1, 2, len(y)), lamb=None),
+                      dict(nswp=1, update_sol=True)]
     X = gen.rng('C10x', seed).uniform(-1, 1, size=(60, 3))
     yy = np.sin(X.sum(axis=1))
     A0 = gen.tt([3, 3, 3], 2, seed + 1, 'gauss')
@@ -282,7 +349,8 @@ def _info_calls(fn, seed):
     def call(**kw):
         return teneva.als_func(X, yy, A0, **kw)
     return call, [dict(nswp=1), dict(nswp=3), dict(nswp=2, e=1e-1), dict(nswp=2, X_vld=X[:5], y_vld=yy[:5], e_vld=1e-1),
-                  dict(nswp=2, n_max=4)]
+                  dict(nswp=2, n_max=4), dict(nswp=1, lamb=None), dict(nswp=2, fh=tab._fh, e=1e10),
+                  dict(nswp=1, update_sol=True)]
 
 
 @clause('C10.defaults.info', funcs=('cross.cross', 'als.als', 'als_func.als_func'))
@@ -306,6 +374,32 @@ def defaults_info(fn, first, second, seed):
                     f'result with info={{}}')
     if gen.snapshot(after) != gen.snapshot(want) or set(after) != set(want):
         return FAIL(f'default info after the call {after} != fresh info {want}')
+    return PASS
+
+
+@clause('C10.defaults.info.allow_swap', funcs=('als.als',))
+def defaults_info_allow_swap(second, seed):
+    """The same statement after an als call with the experimental flag allow_swap=True (which records the mode
+    permutation under info['rearrange']): a later default-info call returns what a fresh info={} call returns and
+    the default dictionary holds exactly the fresh dictionary's entries - nothing is carried over."""
+    n = [4, 2, 3]
+    Yref = gen.tt(n, [1, 3, 2, 1], seed, 'gauss')
+    I = np.vstack([gen.all_indices(n), gen.all_indices(n)[::3]])
+    y = np.array([tab._chain(Yref, r) for r in I])
+    Y0 = gen.tt(n, 2, seed + 1, 'gauss')
+    d = _default_info(teneva.als)
+    _quiet(lambda: teneva.als(I, y, Y0, nswp=2, r=3, allow_swap=True, I_vld=I[::2], y_vld=y[::2]))
+    kw = [dict(nswp=1), dict(nswp=2, r=3), dict(nswp=2, e=1e10)][second]
+    r_def = teneva.als(I, y, Y0, **kw)
+    after = {k: v for k, v in d.items() if k != 't'}
+    info = {}
+    r_new = teneva.als(I, y, Y0, info=info, **kw)
+    want = {k: v for k, v in info.items() if k != 't'}
+    if not _same(r_def, r_new):
+        return FAIL('result with the default info after an allow_swap call differs from the result with info={}')
+    if set(after) != set(want) or gen.snapshot(after) != gen.snapshot(want):
+        return FAIL(f'default info after the call has entries {sorted(after)}, a fresh info has {sorted(want)}: '
+                    f'{sorted(set(after) ^ set(want))} carried over from the earlier allow_swap call')
     return PASS
 
 
@@ -338,8 +432,9 @@ def cases(tier, seed):
         return int(g.integers(1 << k))
 
     for fn in SEEDED:
-        for sd in [0, 1, 42] + [rs() for _ in range(7 if big else 0)]:
-            for rep in range(4 if big else 2):
+        old = list(SEEDED).index(fn) < N_OLD
+        for sd in ([0, 1, 42] if old or big else [0]) + [BIG_SEED] + [rs() for _ in range(7 if big else 0)]:
+            for rep in range(4 if big else 2 if old and sd != BIG_SEED else 1):
                 ga, gb = rs(16), rs(16)
                 yield 'C10.seeded.int_seed', dict(fn=fn, seed=sd, ga=ga, gb=gb)
                 yield 'C10.seeded.generator', dict(fn=fn, seed=sd, ga=ga, gb=gb)
@@ -352,14 +447,20 @@ def cases(tier, seed):
         if big:
             combos = [(L, sv, v) for v in variants for L in tab.LAYOUTS for sv in tab.SHAPE_VARIANTS]
         else:
-            combos = [(tab.LAYOUTS[k % 3], tab.SHAPE_VARIANTS[k % 4] if k else 'base', v)
-                      for k, v in enumerate(variants)] + [('F', 'rank1', variants[0]), ('V', 'd2', variants[0])]
+            j = sorted(tab.PATTERNS).index(fn)
+            combos = [(tab.LAYOUTS[k % 4], tab.SHAPE_VARIANTS[k % 5] if k else 'base', v)
+                      for k, v in enumerate(variants)] + [(tab.LAYOUTS[j % 4], tab.SHAPE_VARIANTS[1 + j % 4], variants[0])]
         for L, sv, v in combos:
             yield 'C10.deterministic.repeat', dict(fn=fn, layout=L, sv=sv, variant=v, seed=rs(), ga=rs(16), gb=rs(16))
     for fn in ('cross', 'als', 'als_func'):
-        for first in range(5):
-            for second in range(5):
-                if big or (first + 2 * second) % 3 != 2 or first == second:
+        for first in range(8):
+            for second in range(8):
+                new = first >= 5 or second >= 5
+                if big or (not new and ((first + 2 * second) % 3 != 2 or first == second)) \
+                        or (new and (first + second) % 4 == 1):
                     yield 'C10.defaults.info', dict(fn=fn, first=first, second=second, seed=rs())
+    for second in range(3):
+        for rep in range(3 if big else 1):
+            yield 'C10.defaults.info.allow_swap', dict(second=second, seed=rs())
     for rep in range(6 if big else 2):
         yield 'C10.defaults.cache_to_data', dict(seed=rs())
